@@ -110,7 +110,7 @@ PLANS["C11"] = dict(
     technique="deductive verification of the real proposal construction and suitability test (swap_condition pairing clauses with a ghost map of popped partners, is_edge_choice_suitable with four loop invariants, helpers) by VCs from the AST in z3/cvc5; the whole randomized run by bounded run-time postconditions of rewire over every prefix of the swap history (labelled stand-in); one open known finding (motif-id pairing)",
     level_text="Proved for all inputs: proposal 2i is (u0, v1_i) and proposal 2i+1 is (v0, u1_i) with the popped partner of the same topology; a suitable choice has equal corner sizes, pairwise different motif ids, no proposed edge already present and no proposed self-loop; helpers. The motif-id pairing obligations (the corner that moves into a motif takes that motif's id) FAIL on the current tree and are an OPEN KNOWN FINDING (the repair makes the repository's own test time out). The whole-run clauses (input untouched, vertices, annotations, edge count, per-vertex per-topology degrees, no self-loop, default limits) are bounded only.",
     level_note="Trusted: vf VC generator, z3/cvc5; assumed networkx read contracts; A-CALLBACK n/a. Bounded part: clean generator networks N <= 14 (24 thorough), every prefix of the swap history for limits 0..5 and the default, runs that exceed the RNG-draw budget are abandoned (termination/liveness is not claimed).",
-    explanation="PROVED: swap_condition pair.len / pair.u_side_edge / pair.v_side_edge; is_edge_choice_suitable same_size / different_motifs / proposed_edges_absent / no_proposed_self_loop (58 obligations); get_other_vertex, append_proposal_edges, get_hashmap. OPEN KNOWN FINDING: pair.u_side_joins_v_motif / pair.v_side_joins_u_motif. BOUNDED: run-time postcondition of rewire (input untouched, same vertices and annotations, same edge count, per-vertex per-topology degrees, no self-loop, default limits usable, motif shape = known finding).",
+    explanation="PROVED: swap_condition pair.len / pair.u_side_edge / pair.v_side_edge; is_edge_choice_suitable same_size / different_motifs / proposed_edges_absent / no_proposed_self_loop (58 obligations); get_other_vertex, append_proposal_edges, get_hashmap; get_all_edges (exactly the edges at the focal vertex carrying the drawn edge's motif id, oriented from it); __init__ over a parameter-record model (with the optional keys absent the object is constructed, the convergence limit is 10 * number_of_edges() >= 0, the search limit 25); STRUCTURAL (discharged): rewire copies the network once and mutates / returns only the copy. OPEN KNOWN FINDING: pair.u_side_joins_v_motif / pair.v_side_joins_u_motif. BOUNDED: run-time postcondition of rewire (input untouched, same vertices and annotations, same edge count, per-vertex per-topology degrees, no self-loop, default limits usable, motif shape = known finding).",
     clauses={"never modifies the given network; same vertex set and annotations; same number of edges; per-vertex per-topology degrees": "bounded (whole-run postcondition on every history prefix)",
              "no self-loop or duplicate edge": "proved at the suitability test (no_proposed_self_loop, proposed_edges_absent) + bounded whole run",
              "edges sharing a motif id still form the motif": "OPEN KNOWN FINDING F8b (obligations pair.*_joins_*_motif fail; bounded clause motif_shape fails on the first accepted swap)",
@@ -122,7 +122,7 @@ PLANS["C12"] = dict(
     technique="deductive verification of the real swap_condition acceptance rule (True implies every proposal's pairing key is present with positive weight in its topology's target matrix; numerator-loop invariant in nonlinear real arithmetic) and of the key views / key builders, VCs from the AST in z3/cvc5; created-edge check on bounded rewiring runs as labelled stand-in",
     level_text="Clause 1 is proved for all inputs and RNG outcomes: swap_condition returns True only if, for every proposal edge, its topology is known to the target, the concatenated excess key of its two end points is present in that topology's matrix and its weight is non-zero hence positive; the six key-view getters, the topology index and the key builders are proved to return exactly the named tuples. Clause 2 (the chain approaches the target) is a convergence statement and is not decided by contracts.",
     level_note="Trusted: vf VC generator, z3/cvc5 (nonlinear real arithmetic for the product invariant); assumed networkx read contracts, L-CAT, set literal / issubset semantics, try/except routing. Bounded part: targets with pairings removed or zeroed on the C11 networks.",
-    explanation="PROVED: swap_condition ensures allowed.topology_known / allowed.pair_in_target / allowed.weight_positive (invariants p_top, p_key, p_pos, top > 0), target unchanged; JointExcessJointDegreeKeysView getters; get_topology_index (first index, raises when absent); get_joint_excess_degree_key / get_swapped_joint_excess_degree_key. BOUNDED: every edge of the result that was not in the input joins a pairing with positive target weight. NOT DECIDED: clause 2 (convergence).",
+    explanation="PROVED: swap_condition ensures allowed.topology_known / allowed.pair_in_target / allowed.weight_positive (invariants p_top, p_key, p_pos, top > 0), target unchanged; the Metropolis quantities: numerator == product over the proposed pairings' target weights (spec nprod, lemma nprod_ignores_later_partners by induction), denominator == product over the current pairings' weights (spec dprod), True only if the uniform draw is below numerator / denominator; JointExcessJointDegreeKeysView getters; get_topology_index (first index, raises when absent); get_joint_excess_degree_key / get_swapped_joint_excess_degree_key. BOUNDED: every edge of the result that was not in the input joins a pairing with positive target weight. NOT DECIDED: clause 2 (convergence).",
     clauses={"every created edge joins a pairing of positive target weight; forbidden pairings never manufactured": "proved at the acceptance test (allowed.*) and bounded on whole runs",
              "distance to the target decreases": "NOT DECIDED (convergence of a Markov chain is not a contract; deliberately not tested statistically)"},
     assumptions=_MCMC_ASSUME, not_decided=["clause 2: the chain approaches the target (convergence)"])
